@@ -159,13 +159,13 @@ def fmt019 (v : Int) : Bytes :=
 def headerLine (seq : Int) (off size : Nat) : Bytes :=
   fmtD seq ++ [cComma] ++ fmtNat off ++ [cComma] ++ fmtNat size ++ [cNL]
 
-/-- the text of creation time `t` (`time.MarshalText`), an opaque fixed-width token: 'T' 12 digits 'Z' -/
-def timeText (t : Nat) : Bytes := [84] ++ digitsW 12 t ++ [90]
+/-- the text of creation time `t` (`time.MarshalText`), an opaque token: 'T', at least 12 digits, 'Z' -/
+def timeText (t : Nat) : Bytes := 84 :: (padZero 12 (fmtNat t) ++ [90])
 
 /-- `time.UnmarshalText`: only complete tokens parse (no strict prefix of an RFC 3339 text is one) -/
 def parseTime (b : Bytes) : Option Nat :=
   match b with
-  | 84 :: r => if r.length = 13 ∧ (r.take 12).all isDigit ∧ r.drop 12 = [90] then some (digitsVal (r.take 12)) else none
+  | 84 :: r => if 13 ≤ r.length ∧ r.getLast? = some 90 ∧ r.dropLast.all isDigit then some (digitsVal r.dropLast) else none
   | _ => none
 
 /-- `strings.Trim(s, "\r\n")` -/
@@ -309,6 +309,7 @@ inductive Prim where
   | sync (f : Ext)
   | create (f : Ext)       -- `openOrCreateFile`: creates an empty file if there is none
   | remove (f : Ext)
+  | truncate (f : Ext) (n : Nat)   -- `ftruncate` to `n` bytes
   deriving Repr, DecidableEq, Inhabited
 
 /-- `pwrite`: overwrite / extend (a gap is zero-filled; the store never leaves one) -/
@@ -324,6 +325,9 @@ def applyPrim (fs : FS) : Prim → FS
       | some _ => fs
       | none => fs.set f (some [])
   | .remove f => fs.set f none
+  | .truncate f n => match fs.get f with
+      | some c => fs.set f (some (c.take n))
+      | none => fs
 
 def applyPrims (fs : FS) (ps : List Prim) : FS := ps.foldl applyPrim fs
 
@@ -384,13 +388,20 @@ def populateCache (c : MemStore) (fs : FS) : Bool × MemStore :=
 
 def openPrims : List Prim := [.create .body, .create .header, .create .session, .create .sender, .create .target]
 
-/-- `Refresh`: cache.Reset, Close, populateCache, open/create the five files, write the session file if the creation
-    time was not populated, rewrite both counter files from the cache.  Returns the new store and its primitives. -/
+/-- length of the header contents up to and including the last newline -/
+def keepLen (h : Bytes) : Nat := h.length - (h.reverse.takeWhile (· ≠ cNL)).length
+
+/-- `dropIncompleteIndexLine` (after the `fix:`): truncate the header file after its last newline if a tail without newline is there -/
+def truncPrims (sync : Bool) (h : Bytes) : List Prim :=
+  if keepLen h = h.length then [] else [.truncate .header (keepLen h)] ++ syncIf sync .header
+
+/-- `Refresh`: cache.Reset, Close, populateCache, open/create the five files, drop an incomplete trailing index line, write the
+    session file if the creation time was not populated, rewrite both counter files from the cache.  Returns the new store and its primitives. -/
 def refreshOp (st : FStore) (fs : FS) (now : Nat) : FStore × List Prim :=
   let c0 := st.cache.reset now
   let p1 := closePrims st.opened
   let (pop, c1) := populateCache c0 fs
-  let p2 := openPrims
+  let p2 := openPrims ++ truncPrims st.sync (fs.header.getD [])
   let p3 := if pop then [] else setSessionPrims st.sync c1.ctime
   let p4 := setSeqNumPrims st.sync .sender c1.nextS
   let c2 := c1.setS c1.nextS
@@ -398,7 +409,11 @@ def refreshOp (st : FStore) (fs : FS) (now : Nat) : FStore × List Prim :=
   let c3 := c2.setT c2.nextT
   ({ st with cache := c3, opened := true }, p1 ++ p2 ++ p3 ++ p4 ++ p5)
 
-def removePrims : List Prim := [.remove .body, .remove .header, .remove .session, .remove .sender, .remove .target]
+/-- `Reset` removes the index file first (after the `fix:`), then body, session, counters -/
+def removePrims : List Prim := [.remove .header, .remove .body, .remove .session, .remove .sender, .remove .target]
+
+/-- the pinned original order: body before header -/
+def removePrimsOrig : List Prim := [.remove .body, .remove .header, .remove .session, .remove .sender, .remove .target]
 
 /-- `Reset`: cache.Reset, Close, remove the five files, Refresh (two clock readings) -/
 def resetOp (st : FStore) (fs : FS) (now : Nat) : FStore × List Prim :=
@@ -593,6 +608,7 @@ structure DFS where
 def applyPrimD (d : DFS) (p : Prim) : DFS :=
   match p with
   | .write .. => { d with vol := applyPrim d.vol p }
+  | .truncate .. => { d with vol := applyPrim d.vol p }
   | .sync f => { d with dur := d.dur.set f (d.vol.get f) }
   | .create _ => { vol := applyPrim d.vol p, dur := applyPrim d.dur p }
   | .remove _ => { vol := applyPrim d.vol p, dur := applyPrim d.dur p }
